@@ -455,13 +455,7 @@ impl Ctx {
             shown.push_str("...");
         }
         println!("--- violation detail ({check}) ---\n{reason}\n--- shrunk case ---\n{shown}");
-        for key in ["ledger", "base", "prefix", "suffix", "variant"] {
-            if let Some(l) = case.get(key) {
-                if let Ok(txs) = serde_json::from_value::<Vec<crate::led::Tx>>(l.clone()) {
-                    println!("--- {key} as DSL ---\n{}", crate::led::to_dsl(&txs));
-                }
-            }
-        }
+        print_ledgers("case", case);
         println!("VIOLATION property={} replay={}", self.property, path);
     }
 
@@ -576,4 +570,27 @@ pub fn pick_idx(raw: u16, len: usize) -> usize {
 
 pub fn boxed<S: Strategy + 'static>(s: S) -> BoxedStrategy<S::Value> {
     s.boxed()
+}
+
+/// Print every array inside `v` that decodes as a non-empty ledger, as DSL.
+fn print_ledgers(path: &str, v: &Value) {
+    match v {
+        Value::Array(a) => {
+            if !a.is_empty() {
+                if let Ok(txs) = serde_json::from_value::<Vec<crate::led::Tx>>(v.clone()) {
+                    println!("--- {path} as DSL ---\n{}", crate::led::to_dsl(&txs));
+                    return;
+                }
+            }
+            for (i, x) in a.iter().enumerate() {
+                print_ledgers(&format!("{path}[{i}]"), x);
+            }
+        }
+        Value::Object(o) => {
+            for (k, x) in o {
+                print_ledgers(&format!("{path}.{k}"), x);
+            }
+        }
+        _ => {}
+    }
 }
